@@ -187,7 +187,7 @@ fn build_pair(r: &mut Rng, out: &mut String, force_relation: bool) -> &'static s
         95 // complements
     } else if r.chance(1, 14) {
         201 // array chunk against a bitset chunk that misses exactly one of its values
-    } else if r.chance(1, 16) {
+    } else if r.chance(1, 8) {
         200 // many chunks
     } else if force_relation {
         40 + r.below(35)
@@ -377,7 +377,8 @@ fn build_pair(r: &mut Rng, out: &mut String, force_relation: bool) -> &'static s
         // right-hand chunks identical to / overlapping / absent from the left, adjacent in the left's chunk list, at
         // its first and last positions (paths chosen by the relative number of chunks; cursors that resume a search)
         200 => {
-            let n = r.range(33, 70);
+            // (ratios of 32x, 64x and more between the chunk counts: up to 140 chunks against 1..4)
+            let n = if r.chance(1, 3) { r.range(70, 140) } else { r.range(33, 70) };
             let k0 = *r.pick(&[0u64, 0, 3, 0xFFFF - n]);
             let mut big = String::new();
             let mut vals: Vec<(u64, Vec<u64>)> = Vec::new();
@@ -395,9 +396,9 @@ fn build_pair(r: &mut Rng, out: &mut String, force_relation: bool) -> &'static s
                 vals.push((k, vs));
             }
             let nsmall = r.range(1, 4);
-            let at = match r.below(4) {
-                0 => 0,
-                1 => n - nsmall.min(n),
+            let at = match r.below(6) {
+                0 | 1 => 0,
+                2 | 3 => n - nsmall.min(n), // the right operand's chunks are the LAST chunks of the left
                 _ => r.below(n - nsmall + 1),
             };
             let mut small = String::new();
@@ -414,7 +415,7 @@ fn build_pair(r: &mut Rng, out: &mut String, force_relation: bool) -> &'static s
                     _ => {}                                                       // not on the right at all
                 }
             }
-            if r.chance(1, 3) {
+            if r.chance(1, 5) {
                 write!(small, " {}", ((k0 + n) << 16).min(u32::MAX as u64)).unwrap(); // a chunk beyond the left's last
             }
             let (l, rr) = if r.chance(2, 3) { ("b0", "b1") } else { ("b1", "b0") };
